@@ -176,6 +176,16 @@ def run(case):
     r = compare_labelled(obj, rec, rtol=1e-8, atol=1e-8 * 4000)
     if r:
         F.append(Finding("oracle", "reconstruction_structure", cc, f"inverse_transform(scores()) with all modes: {r}"))
+    # a reconstruction from ONE sample keeps the full input structure as well (its sample dimensions with that one label)
+    try:
+        one = sc.isel({d: [0] for d in sd})
+        rec1 = m.inverse_transform(one)
+        ref1 = [o.sel({d: one[d].values for d in sd}) for o in obj] if isinstance(obj, list) else obj.sel({d: one[d].values for d in sd})
+        r = compare_labelled(ref1, rec1, rtol=1e-8, atol=1e-8 * 4000)
+        if r:
+            F.append(Finding("oracle", "reconstruction_structure", cc, f"inverse_transform of a single sample's scores: {r[:200]}"))
+    except Exception as e:  # noqa: BLE001
+        F.append(Finding("oracle", "reconstruction_structure", cc + "|raises", f"single sample: {type(e).__name__}: {str(e)[:150]}"))
     # the labels of the fitted results stay the model's own after other data went through `transform`: the same labelled data
     # stored in the opposite order along the first sample dimension
     try:
